@@ -98,7 +98,7 @@ class Forms(HypPart):
     rule = ('texts from pools G0-G4 with \\n as the only line terminator x renderer; str, str +/- final newline, list/tuple/iterator of '
             'lines with and without terminators, StringIO, real file object and in-process CLI must give byte-identical output; '
             'non-trivial = (>= 2 blocks and a non-ASCII character) or no final newline; distinct = distinct (text, renderer)')
-    required_labels = {'no-final-newline': 0.05, 'non-ascii': 0.03}
+    required_labels = {'no-final-newline': 0.05, 'non-ascii': 0.03, 'option-matters': 0.002}
 
     def strategy(self, tier):
         return tapes(60, 600)
@@ -135,6 +135,23 @@ class Forms(HypPart):
             if out != base:
                 return Out(Fail('same-output', '%s differs from str' % form, text=text, renderer=name, form=form,
                                 expected=base, actual=out), nt=nt, labels=labels)
+        if '|' in text:
+            # the same text again under the other value of the documented parse option Table.interrupt_paragraph:
+            # every form must follow the option (a result remembered for one form would not)
+            from mistletoe import block_token
+            saved = block_token.Table.interrupt_paragraph
+            block_token.Table.interrupt_paragraph = not saved
+            try:
+                res2 = forms_outputs(text, name)
+            except Exception as exc:
+                return Out(Fail('same-output', 'raised under the other option value: ' + exc_sig(exc), text=text, renderer=name), nt=nt, labels=labels)
+            finally:
+                block_token.Table.interrupt_paragraph = saved
+            labels += ('option-toggled',) + (('option-matters',) if res2['str'] != base else ())
+            for form, out in res2.items():
+                if out != res2['lines-with-terminators']:
+                    return Out(Fail('same-output', '%s differs from the list form after Table.interrupt_paragraph was changed' % form, text=text,
+                                    renderer=name, form=form, expected=res2['lines-with-terminators'], actual=out), nt=nt, labels=labels)
         return Out(nt=nt, labels=labels)
 
 
